@@ -114,6 +114,24 @@ def quantities():
                 out[..., j, i] = v
         return out
 
+    def third(g, e, T):
+        # rank-3 tensor of third derivatives: the specialised back-end wherever it applies (no axis differentiated
+        # more than twice: mixed orders such as (1,2,0) and (1,1,1)), the general one for (3,0,0)-type entries
+        out = None
+        for i in range(3):
+            for j in range(3):
+                for k in range(3):
+                    o = np.zeros(3, dtype=int)
+                    for a in (i, j, k):
+                        o[a] += 1
+                    dt = "general" if o.max() > 2 else "direct"
+                    v = evaluate_deriv_basis(g, e["points"], o, deriv_type=dt, **_kw(T))
+                    if out is None:
+                        out = np.zeros(v.shape + (3, 3, 3))
+                    out[..., i, j, k] = v
+        return out
+
+    iq["third_basis_direct"] = (third, (0,))
     iq["grad_basis"] = (grad, (0,))
     iq["hess_basis"] = (hess, (0,))
     iq["hess_basis_direct"] = (lambda g, e, T: hess(g, e, T, "direct"), (0,))
@@ -154,6 +172,12 @@ def laws(R, d, reach=1.0):
     def ten_abs(x, _=None):
         return np.einsum("ia,jb,...ab->...ij", aR, aR, x)
 
+    def ten3(x, _=None):
+        return np.einsum("ia,jb,kc,...abc->...ijk", R, R, R, x)
+
+    def ten3_abs(x, _=None):
+        return np.einsum("ia,jb,kc,...abc->...ijk", aR, aR, aR, x)
+
     def angmom(Lp, allp):
         p = vec(allp["momentum"])
         return det * vec(Lp) + np.cross(np.broadcast_to(d, p.shape), p)
@@ -180,6 +204,7 @@ def laws(R, d, reach=1.0):
         "grad_basis": vec, "grad_basis#abs": vec_abs,
         "hess_basis": ten, "hess_basis#abs": ten_abs,
         "hess_basis_direct": ten, "hess_basis_direct#abs": ten_abs,
+        "third_basis_direct": ten3, "third_basis_direct#abs": ten3_abs,
         "density_gradient": vec, "density_hessian": ten, "stress_tensor": ten, "ehrenfest_force": vec,
         "ehrenfest_hessian": ten,
     }
